@@ -36,25 +36,46 @@ type sessionProvider struct {
 	txs     [][]byte
 	blk     *consensus.Block
 	calls   map[string]int
+	// asked: the heights the core asked the provider about during the current call
+	asked       []int64
+	latest      int64
+	latestFlips bool
+	latestCalls int
 }
 
-func (p *sessionProvider) GetBlockResults(context.Context, int64) (*consensus.BlockResults, error) {
+func (p *sessionProvider) GetBlockResults(_ context.Context, h int64) (*consensus.BlockResults, error) {
 	p.calls["results"]++
+	p.asked = append(p.asked, h)
+	if h != p.fx.lb.Height {
+		// the provider has something to say about every height: the same results, labelled with the height asked for
+		return &consensus.BlockResults{Height: h, Meta: p.results.Meta}, nil
+	}
 	return p.results, nil
 }
 
-func (p *sessionProvider) GetTransactions(context.Context, int64) ([][]byte, error) {
+func (p *sessionProvider) GetTransactions(_ context.Context, h int64) ([][]byte, error) {
 	p.calls["txs"]++
+	p.asked = append(p.asked, h)
 	return p.txs, nil
 }
 
-func (p *sessionProvider) GetBlock(context.Context, int64) (*consensus.Block, error) {
+func (p *sessionProvider) GetBlock(_ context.Context, h int64) (*consensus.Block, error) {
 	p.calls["block"]++
+	p.asked = append(p.asked, h)
 	return p.blk, nil
 }
 
+// GetLatestHeight: the chain head as the provider reports it; with latestFlips it moves between consecutive calls
+// (a new block arrived), which is what happens all the time on a live network.
 func (p *sessionProvider) GetLatestHeight(context.Context) (int64, error) {
-	return p.fx.lb2.Height, nil
+	p.latestCalls++
+	if p.latestFlips && p.latestCalls%2 == 1 {
+		return p.fx.lb.Height, nil
+	}
+	if p.latestFlips {
+		return p.fx.lb2.Height, nil
+	}
+	return p.latest, nil
 }
 
 func resultsKey(meta *cmtapi.BlockResultsMeta) string {
@@ -134,7 +155,7 @@ func TestC19CoreSession(t *testing.T) {
 			if err != nil {
 				ev.Infra(t, "head: %v", err)
 			}
-			kind := rapid.SampledFrom([]string{"results", "results", "txresults", "txs", "block", "stateroot"}).Draw(t, "kind")
+			kind := rapid.SampledFrom([]string{"results", "results", "txresults", "txs", "block", "stateroot", "latest-txresults"}).Draw(t, "kind")
 			alter := rapid.SampledFrom([]string{"none", "none", "a", "b", "c"}).Draw(t, "alter")
 			fp = append(fp, kind, alter, head-H)
 			// provider answers for this call
@@ -144,6 +165,9 @@ func TestC19CoreSession(t *testing.T) {
 			prov.results = fx.results
 			prov.txs = fx.txs
 			prov.blk = fx.blk
+			prov.asked = nil
+			prov.latest = H
+			prov.latestFlips = false
 			altered := ""
 			switch {
 			case alter == "none":
@@ -200,6 +224,33 @@ func TestC19CoreSession(t *testing.T) {
 				ev.Violation(t, sig, "%s: %s; session=%v", desc, fmt.Sprintf(format, args...), trace)
 			}
 			switch kind {
+			case "latest-txresults":
+				// "latest" is resolved by the core; whatever it resolves to, ONE response is about ONE height: every
+				// request the core makes to the provider while serving the call names the same height
+				switch rapid.IntRange(0, 2).Draw(t, "latestMode") {
+				case 0:
+					prov.latest = H
+				case 1:
+					prov.latest = H + 1
+				default:
+					prov.latestFlips = true
+				}
+				tr, gerr := c.GetTransactionsWithResults(ctx, consensus.HeightLatest)
+				rec.Label(fmt.Sprintf("latest-txresults:head-moves=%v:returned=%v", prov.latestFlips, gerr == nil))
+				if gerr == nil {
+					for _, h := range prov.asked {
+						if h != prov.asked[0] {
+							fail("mixed-heights", "one GetTransactionsWithResults(latest) response was assembled from provider data of different heights %v", prov.asked)
+						}
+					}
+					if len(prov.asked) > 0 && prov.asked[0] == H {
+						for k := range tr.Transactions {
+							if k >= len(fx.txs) || !bytes.Equal(tr.Transactions[k], fx.txs[k]) {
+								fail("unbound-txs", "transaction %d differs from the recorded one", k)
+							}
+						}
+					}
+				}
 			case "results", "txresults":
 				var got *cmtapi.BlockResultsMeta
 				var gerr error
